@@ -209,7 +209,7 @@ func c09Clique(p vbase.Params, r *vbase.Result, async bool) {
 				subj.Node.Drain(10000)
 				return
 			}
-			deadline := time.Now().Add(20 * time.Second)
+			deadline := time.Now().Add(120 * time.Second)
 			stable := 0
 			for stable < 3 {
 				subj.Node.Drain(10000)
